@@ -21,12 +21,14 @@ def extract(g, X):
             raise ValueError("walk_limited definitions: %d" % len(bodies))
         # both walks: depth test first, visited test before the recursive call, recursion with depth - 1
         for m in re.finditer(r"fn\s+walk_limited\b", ty):
-            b = X.item_body(ty[m.start():], r"fn\s+walk_limited[^{]*\{", "walk_limited")
-            if not re.search(r"^\s*if\s+depth\s*==\s*0\s*\{\s*bail!", b):
+            r_, cb, depth, seen = X.fn_params(ty[m.start():], "walk_limited")[-4:]
+            # hoisted sub-expressions (`let plain = tree_ref.get_inner();`) are read where they are used
+            b = X.inline_lets(X.item_body(ty[m.start():], r"fn\s+walk_limited[^{]*\{", "walk_limited"))
+            if not re.search(r"^\s*if\s+" + depth + r"\s*==\s*0\s*\{\s*bail!", b):
                 raise ValueError("walk_limited: depth test missing")
-            i = b.find("seen.insert(tree_ref.get_inner())")
-            j = b.find("walk_limited(r, callback, depth - 1, seen)")
-            if i < 0 or j < 0 or i > j or not re.search(r"if\s*!\s*seen\.insert\(tree_ref\.get_inner\(\)\)\s*\{\s*bail!", b):
+            visited = re.search(r"if\s*!\s*" + seen + r"\.insert\(\s*\(?\s*(\w+)\.get_inner\(\)\s*\)?\s*\)\s*\{\s*bail!", b)
+            rec = re.search(r"\.walk_limited\(\s*" + r_ + r"\s*,\s*" + cb + r"\s*,\s*" + depth + r"\s*-\s*1\s*,\s*" + seen + r"\s*\)", b)
+            if not visited or not rec or visited.start() > rec.start():
                 raise ValueError("walk_limited: visited test / depth - 1 recursion missing")
         return vals[0]
     g.attempt([("tree_depth", "N")], "object/types.rs:NameTree::walk,NumberTree::walk", tree_depth)
